@@ -28,7 +28,8 @@ fn process_token(token: Token) -> Result<Expression, ParserError> {
 }
 
 fn process_dec(token: Token) -> Result<Expression, ParserError> {
-    match token.to_string().parse::<u32>() {
+    let text = token.to_string();
+    match text.parse::<u32>() {
         Ok(u) => {
             if u <= MAX_INTEGER as u32 {
                 Ok(Expression::IntegerLiteral(u as i32))
@@ -38,7 +39,11 @@ fn process_dec(token: Token) -> Result<Expression, ParserError> {
                 Ok(Expression::DoubleLiteral(u as f64))
             }
         }
-        Err(e) => Err(e.into()),
+        // a run of digits too long for u32 is still a (double) number
+        Err(_) => text
+            .parse::<f64>()
+            .map(Expression::DoubleLiteral)
+            .map_err(ParserError::from),
     }
 }
 
